@@ -5,6 +5,7 @@
 
 #include <etl/_concepts/integral.hpp>
 #include <etl/_concepts/same_as.hpp>
+#include <etl/_contracts/check.hpp>
 #include <etl/_cstddef/size_t.hpp>
 #include <etl/_iterator/distance.hpp>
 #include <etl/_strings/from_integer.hpp>
@@ -35,6 +36,8 @@ template <integral T>
     requires(not same_as<T, bool>)
 [[nodiscard]] constexpr auto to_chars(char* first, char* last, T val, int base = 10) -> to_chars_result
 {
+    TETL_PRECONDITION(base >= 2 and base <= 36);
+
     constexpr auto options = strings::from_integer_options{.terminate_with_null = false};
 
     auto const len = static_cast<etl::size_t>(etl::distance(first, last));
